@@ -165,6 +165,13 @@ func (o *ObjectSchema) unserializeInlinedDataToMap(data any) (map[string]any, er
 		panic(fmt.Errorf("unserializeInlinedDataToMap called on ObjectSchema with %d"+
 			" properties; only 1 allowed", len(o.Properties())))
 	}
+	if o.inliningLoops() {
+		return nil, &ConstraintError{
+			Message: fmt.Sprintf(
+				"Must be a map to convert to object, %T given (the only property of object %s leads back to the object, so the value cannot be inlined)",
+				data, o.ID()),
+		}
+	}
 	for fieldName, property := range o.Properties() {
 		unserializedProperty, err := property.Unserialize(data)
 		if err != nil {
@@ -178,6 +185,36 @@ func (o *ObjectSchema) unserializeInlinedDataToMap(data any) (map[string]any, er
 		}, nil
 	}
 	panic("convertInlinedData called on object with zero properties")
+}
+
+// inliningLoops reports whether unserializing non-map data as the only property of this object would come back to
+// this object: a chain of single-property objects that refer to each other (a schema received from a plugin may
+// well describe one). Inlining would then recurse until the stack is exhausted.
+func (o *ObjectSchema) inliningLoops() bool {
+	seen := map[*ObjectSchema]struct{}{}
+	current := o
+	for current != nil {
+		if _, visited := seen[current]; visited {
+			return true
+		}
+		seen[current] = struct{}{}
+		if len(current.PropertiesValue) != 1 {
+			return false
+		}
+		var next *ObjectSchema
+		for _, property := range current.PropertiesValue {
+			var target any = property.TypeValue
+			if ref, isRef := target.(*RefSchema); isRef {
+				target = ref.referencedObjectCache
+			}
+			if scope, isScope := target.(*ScopeSchema); isScope {
+				target = scope.ObjectsValue[scope.RootValue]
+			}
+			next, _ = target.(*ObjectSchema)
+		}
+		current = next
+	}
+	return false
 }
 
 func (o *ObjectSchema) unserializeToStruct(rawData map[string]any) (any, error) {
